@@ -43,6 +43,12 @@ func c16GenEq(t *rapid.T) c16EqCase {
 	c.A = h.GenPointSpec(t, "A", false)
 	c.Sa, c.ACls = h.C16Scalar(t, "a")
 	c.Sb, c.BCls = h.Scalar255(t, "b")
+	if rapid.IntRange(0, 5).Draw(t, "eng") == 0 {
+		// (a, b) engineered so that the 128-bit split of delta*b is extreme
+		var cls string
+		c.Sa, c.Sb, cls = h.C16EngineeredAB(t, "eng")
+		c.ACls, c.BCls = "eng-short-vector", "eng:"+cls
+	}
 	c.Jc = rapid.IntRange(0, 7).Draw(t, "jc")
 	if rapid.IntRange(0, 2).Draw(t, "jc0") == 0 {
 		c.Jc = 0
